@@ -13,7 +13,7 @@ import random
 import numpy as np
 
 from simkit import procstate
-from simkit.core import Counter, EventLog, Violation, hash_array
+from simkit.core import library_raised, Counter, EventLog, Violation, hash_array
 
 PID = "C10"
 KINDS = ("grid1", "grid2", "grid3", "oned", "rule", "atom", "mol", "uniform", "tensor", "periodic", "angular", "shell", "intgrid")
@@ -803,18 +803,24 @@ class GridHistoryEngine:
         ctx = Ctx(spec, known_keys)
         procstate.restore()
         np.seterr(all="ignore")
-        for op in spec["ops"]:
-            ctx.step += 1
-            fn = OPS.get(op[0])
-            if fn is not None:
-                fn(ctx, op)
-        # final observation: every live object answers an all-points and a mid-radius query correctly
-        ctx.step = 10**6
-        for o in list(ctx.objs):
-            if o.kind in QUERYABLE and len(np.asarray(o.g.weights)):
-                c, _ = _center_for(o, "centroid", 1)
-                r, _ = _radius_for(o, "q50", c, 1, True)
-                _do_query(ctx, o, c, r, True, "final")
+        try:
+            for op in spec["ops"]:
+                ctx.step += 1
+                fn = OPS.get(op[0])
+                if fn is not None:
+                    fn(ctx, op)
+            # final observation: every live object answers an all-points and a mid-radius query correctly
+            ctx.step = 10**6
+            for o in list(ctx.objs):
+                if o.kind in QUERYABLE and len(np.asarray(o.g.weights)):
+                    c, _ = _center_for(o, "centroid", 1)
+                    r, _ = _radius_for(o, "q50", c, 1, True)
+                    _do_query(ctx, o, c, r, True, "final")
+        except Exception as exc:  # noqa: BLE001
+            # the harness's own reads of public attributes (points, weights, indices ...) are library calls too
+            if not library_raised(exc):
+                raise
+            ctx.violate("raise", "attribute-read", type(exc).__name__, f"reading a public attribute of a grid raised {exc!r} (step {ctx.step}); the run ends here")
         procstate.restore()
         return {
             "digest": ctx.log.digest(), "violations": ctx.violations, "known_hits": ctx.known_hits, "faults": dict(ctx.faults),
